@@ -2,6 +2,7 @@ package h
 
 import (
 	"fmt"
+	"github.com/netflix/rend/verifshim/vsync"
 	"net"
 	"runtime"
 	"strings"
@@ -207,6 +208,9 @@ func runC15(c *rt.Ctx) {
 							if clause != "" {
 								clause += "/with-second-client"
 							}
+						}
+						if dp := vsync.TakeDoublePuts(); len(dp) > 0 && clause == "" {
+							clause, detail = "pooled-object-put-twice", "the disconnect left a pooled object in its pool twice (two later connections will share it): "+dp[0]
 						}
 						key := fmt.Sprintf("%s|%d|%s|%d", wk.cfg, wk.port, tag, cut)
 						c.Distinct(key)
